@@ -2,6 +2,7 @@ import Proofs.C12
 import Proofs.C02Hist
 import Proofs.C02Cross
 import Proofs.C02Nested
+import Proofs.C02Vint
 import Model.StringSpec
 /-!
 # C02 — Marshal then Unmarshal gives back the value (property theorems)
@@ -633,6 +634,14 @@ example : FieldsRT 4 [.int, .list .text, .text] [.ptr (.int .int false), .slice 
     subst hb; simp [encInt]
   · exact C02_nested_roundtrip 4 _ _ _ (.nilSlice (Or.inl rfl) _)
   · intro b hb; simp [marshal] at hb
+
+/-- duration, the zig-zag layer: decIntZigZag (marshal.go) inverts encIntZigZag on EVERY int64 (months, days and
+    nanoseconds of a duration are written as vints of their zig-zag codes).  The byte layer — decVint's loop after
+    encVint's — is tied to the code (GenTie.C12.encVint / decVint) and compared by `rt` / `rtsame`, not yet proved inverse. -/
+theorem C02_zigzag_roundtrip (n : Int) (h : fitsS 8 n = true) : decIntZigZag (encIntZigZag n) = n := by
+  rw [C12Vint.encIntZigZag_spec n h, C02Vint.decIntZigZag_spec _ (C12Vint.zigzag_lt n h), C12Vint.unzigzag_zigzag]
+
+example : fitsS 8 (-9223372036854775808) = true := by decide
 
 /-! ## STRING SOURCES (op `sstr`): refused, or written as the value the string denotes — never silently altered -/
 
